@@ -20,6 +20,7 @@ var modelKeys = []string{
 	"iface:context.Context.Err", "iface:context.Context.Done", "context.WithCancel", "context.WithTimeout", "context.WithDeadline", "context.WithoutCancel", "context.WithValue", "context.Background", "context.TODO",
 	"sort.Slice", "math.Floor", "math.IsNaN", "math.IsInf", "math.Pow", "math.Ceil", "math.Trunc", "math.Round", "math.Abs", "math.Sqrt", "math.Max", "math.Min", "math.Log2", "math.Exp2", "math.Ldexp", "time.AfterFunc", "(*time.Timer).Stop", "(time.Duration).Nanoseconds",
 	"runtime.NumGoroutine", "time.Now", "(time.Time).Sub",
+	"atomic.Load*", "atomic.Store*", "atomic.Swap*", "atomic.Add*", "atomic.CompareAndSwap*",
 }
 
 func (P *Program) hasModel(key string) bool { return matchAny(modelKeys, key) }
@@ -290,6 +291,43 @@ func (f *Frame) modelCallFull(key string, sig *types.Signature, vals []Val, args
 		vc.assume(sx("distinct", ctx, vals[0].t))
 		vc.ctxs = append(vc.ctxs, ctx)
 		return Val{ctx, SIface, resT(0)}, true
+	}
+	// sync/atomic on a plain integer cell: within one goroutine (the semantics of a function VC) an atomic operation is the
+	// memory operation it names; what other goroutines do to the cell is not modelled (as for every shared cell)
+	if strings.HasPrefix(key, "atomic.") && c != nil && len(c.Args) >= 1 {
+		if _, isPtr := c.Args[0].Type().Underlying().(*types.Pointer); isPtr {
+			p := f.asPtr(c.Args[0])
+			if p != nil {
+				vc.used["A-STD"] = true
+				old := f.loadPtr(f.cur, p)
+				arg := func(i int) Val {
+					if i < len(c.Args) {
+						return f.sval(c.Args[i])
+					}
+					return old
+				}
+				switch {
+				case strings.HasPrefix(key, "atomic.Load"):
+					return old, true
+				case strings.HasPrefix(key, "atomic.Store"):
+					f.storePtr(f.cur, p, arg(1))
+					return Tuple{}, true
+				case strings.HasPrefix(key, "atomic.Swap"):
+					f.storePtr(f.cur, p, arg(1))
+					return old, true
+				case strings.HasPrefix(key, "atomic.Add") && !isBV(old.s):
+					nv := wrap1(sx("+", old.t, arg(1).t), c.Args[1].Type())
+					f.storePtr(f.cur, p, Val{nv, old.s, old.gt})
+					return Val{nv, old.s, old.gt}, true
+				case strings.HasPrefix(key, "atomic.CompareAndSwap"):
+					hit := eq(old.t, arg(1).t)
+					f.storePtr(f.cur, p, Val{ite(hit, arg(2).t, old.t), old.s, old.gt})
+					return Val{hit, SBool, types.Typ[types.Bool]}, true
+				}
+			}
+		}
+	}
+	switch key {
 	case "time.AfterFunc":
 		// A-STD: returns a fresh timer that will run the function once after the delay (ghost: its delay and function)
 		vc.used["A-STD"] = true
